@@ -168,6 +168,14 @@ def run(ctx):
                                                 if mk.id in g.reach([t]))
         ctx.ob('C16-DELQ.old-slot-vacated', dl, mk.ast, okv, '' if okv else 'a modified object that is deleted keeps its earlier slot in the save queue (it would be saved twice, '
                'or deleted at the position of its UPDATE)', node=mk.ast)
+    # ---------------------------------------------------------------- QUEUE
+    # a refused operation puts the save queue back exactly as it was -- slots, length and _save_pos_ -- otherwise the pending write of an object that the
+    # refused operation had touched moves behind writes queued later, and an orderable set of changes is rejected by the database.  The COVER clause of
+    # C13 (every forward mutation of a location class is restored by a registered undo closure, under the status the forward branch leaves) is evaluated
+    # here for the queue's location classes in every function of the undo protocol.
+    from . import C13 as _C13
+    for f_, creates_ in _C13.protocol_functions(ctx):
+        _C13.check_function(ctx, f_, creates_, only_cover_locs={'queue_slot', 'save_queue', '_save_pos_'}, prefix='C16-QUEUE')
 
 
 MUTANTS = [
